@@ -1,7 +1,7 @@
 (* Driver for the extracted C03/C12 models.  usage: c03_model <dense|sparse|uint> <casefile>
    Same line format as harness/c03_data.cpp, except that random choices are explicit:
      H r            -> O r sigma..            (resolved by the Python driver from the C++ output)
-     CS r k m sigma..   CB r k m nclasses sizes.. S..   CT r k bperm..   CR -> CI
+     CS r k m sigma..   CB r k m nclasses sizes.. S..   CT r k bperm..   CR r k m draws..
    W r q bs n1 idx1.. idx2.. : view -> subset -> subset -> toDataset, executed with the view model *)
 open C03_model
 
@@ -37,20 +37,38 @@ let () =
   let ic = open_in Sys.argv.(2) in
   let empty = { inp = []; lab = []; shape = "()" } in
   let regs = Array.make 4 empty in
-  let dump_cv r (c_in : nat cv) (c_lab : nat cv) =
-    let x = { (regs.(r)) with inp = c_in.cv_set; lab = c_lab.cv_set } in
+  (* C12: every fold constructor goes through C12Folds.scv_create (one function of a request) on the input
+     and the label container, each with its element shape; validation(i)/training(i) through
+     s_validation / s_training; all shapes printed are the ones the Coq model returns.
+     Before the call both sides give the label container the shape (k+3) and, when the input shape is the
+     default 0-D shape, the input container the shape (k+5): a lost shape is then always visible. *)
+  let dump_scv r (c_in : (nat, string) scv) (c_lab : (nat, string) scv) =
+    let x = { inp = c_in.scv_set.sd_data; lab = c_lab.scv_set.sd_data; shape = c_in.scv_set.sd_shape } in
     regs.(r) <- x;
     let b = Buffer.create 256 in
     Buffer.add_string b (dump_reg r x);
     Buffer.add_string b " folds=";
-    Buffer.add_string b (String.concat ";" (List.map (fun f -> String.concat "," (List.map (fun i -> string_of_int (int_of_nat i)) f)) c_in.cv_folds));
+    Buffer.add_string b (String.concat ";" (List.map (fun f -> String.concat "," (List.map (fun i -> string_of_int (int_of_nat i)) f)) c_in.scv_folds));
+    Buffer.add_string b (" lshape=" ^ c_lab.scv_set.sd_shape);
     List.iteri (fun p _ ->
         let pn = nat_of_int p in
-        match validation c_in pn, validation c_lab pn, training c_in pn, training c_lab pn with
+        match s_validation c_in pn, s_validation c_lab pn, s_training c_in pn, s_training c_lab pn with
         | Some vi, Some vl, Some ti, Some tl ->
-          Buffer.add_string b (Printf.sprintf " val%d=%s train%d=%s vshape%d=%s" p (dump_data vi vl) p (dump_data ti tl) p x.shape)
-        | _ -> raise Reject) c_in.cv_folds;
+          Buffer.add_string b (Printf.sprintf " val%d=%s train%d=%s vshape%d=%s vlshape%d=%s tshape%d=%s tlshape%d=%s"
+                                 p (dump_data vi.sd_data vl.sd_data) p (dump_data ti.sd_data tl.sd_data)
+                                 p vi.sd_shape p vl.sd_shape p ti.sd_shape p tl.sd_shape)
+        | _ -> raise Reject) c_in.scv_folds;
     Buffer.contents b in
+  let run_cv r (req : cv_request) extra_valid =
+    let x = regs.(r) in
+    let k = int_of_nat (req_k req) in
+    let shape = if x.shape = "()" then Printf.sprintf "(%d)" (k + 5) else x.shape in
+    let lshape = Printf.sprintf "(%d)" (k + 3) in
+    let xi = { sd_shape = shape; sd_data = x.inp } and xl = { sd_shape = lshape; sd_data = x.lab } in
+    if not (extra_valid && req_valid req x.inp && req_valid req x.lab) then " INVALIDCHOICE" else
+    match scv_create O req xi, scv_create O req xl with
+    | Some ci, Some cl -> dump_scv r ci cl
+    | _ -> raise Reject in
   (try
     while true do
       let l = input_line ic in
@@ -152,37 +170,29 @@ let () =
              | "F" -> let r = a.(0) and f = a.(1) in
                regs.(r) <- { (regs.(r)) with inp = transform (fun i -> nat_of_int (int_of_nat i + f)) regs.(r).inp; shape = shape0 (* transform infers the shape from the data *) }; dump_reg r regs.(r)
              | "CS" -> let r = a.(0) in let k = nat_of_int a.(1) and m = nat_of_int a.(2) in
-               let sg = rest 3 in
-               if not (valid_perm (nelems regs.(r).inp) sg) then " INVALIDCHOICE" else
-               (match cv_same_size O sg k m regs.(r).inp, cv_same_size O sg k m regs.(r).lab with
-                | Some ci, Some cl -> dump_cv r ci cl | _ -> raise Reject)
-             | "CI" | "CR" -> let r = a.(0) in let k = nat_of_int a.(1) and m = nat_of_int a.(2) in
-               (match cv_indexed O (rest 3) k m regs.(r).inp, cv_indexed O (rest 3) k m regs.(r).lab with
-                | Some ci, Some cl -> dump_cv r ci cl | _ -> raise Reject)
+               run_cv r (ReqSameSize (rest 3, k, m)) true
+             | "CI" -> let r = a.(0) in let k = nat_of_int a.(1) and m = nat_of_int a.(2) in
+               run_cv r (ReqIndexed (rest 3, k, m)) true
+             | "CR" -> (* createCVIID: the drawn folds are read back from the implementation's output *)
+               let r = a.(0) in let k = nat_of_int a.(1) and m = nat_of_int a.(2) in
+               run_cv r (ReqIID (rest 3, k, m)) true
              | "CF" -> let r = a.(0) in let k = nat_of_int a.(1) and m = nat_of_int a.(2) in
                let n = (Array.length a - 3) / 2 in
                let (f, s) = split_at n (rest 3) in
-               (match cv_fully_indexed O f s k m regs.(r).inp, cv_fully_indexed O f s k m regs.(r).lab with
-                | Some ci, Some cl -> dump_cv r ci cl | _ -> raise Reject)
+               run_cv r (ReqFullyIndexed (f, s, k, m)) true
              | "CB" -> let r = a.(0) in let k = nat_of_int a.(1) and m = nat_of_int a.(2) in
                let nc = a.(3) in
                let szs = Array.to_list (Array.sub a 4 nc) in
                let s = ref (rest (4 + nc)) in
                let members = List.map (fun sz -> let (x, y) = split_at sz !s in s := y; x) szs in
-               if not (valid_members (elems regs.(r).lab) members) then " INVALIDCHOICE" else
-               (match cv_balanced O members k m regs.(r).inp, cv_balanced O members k m regs.(r).lab with
-                | Some ci, Some cl ->
-                  let so = dump_cv r ci cl in
-                  let sq = List.concat members in
-                  let n = List.length sq in
-                  so ^ " rfirst=" ^ String.concat "," (List.map (fun i -> string_of_int (int_of_nat i)) sq)
-                  ^ " rsecond=" ^ String.concat "," (List.init n (fun t -> string_of_int (t mod a.(1))))
-                | _ -> raise Reject)
+               let so = run_cv r (ReqBalanced (members, k, m)) (valid_members (elems regs.(r).lab) members) in
+               if so = " INVALIDCHOICE" then so else
+                 let sq = List.concat members in
+                 let n = List.length sq in
+                 so ^ " rfirst=" ^ String.concat "," (List.map (fun i -> string_of_int (int_of_nat i)) sq)
+                 ^ " rsecond=" ^ String.concat "," (List.init n (fun t -> string_of_int (t mod a.(1))))
              | "CT" -> let r = a.(0) in let k = nat_of_int a.(1) in
-               let bp = rest 2 in
-               if not (valid_perm (nat_of_int (List.length regs.(r).inp)) bp) then " INVALIDCHOICE" else
-               (match cv_batch bp k regs.(r).inp, cv_batch bp k regs.(r).lab with
-                | Some ci, Some cl -> dump_cv r ci cl | _ -> raise Reject)
+               run_cv r (ReqBatch (rest 2, k)) true
              | _ -> " ?")
           with Reject -> " REJECT" | Invalid_argument _ -> " REJECT" in
         Printf.printf "%s ->%s\n" l out
